@@ -57,6 +57,7 @@ class Dev(object):
     self.remote_of = {}
     self.consumed = []        # messages the host has taken off the transport, in order
     self.hold = {}            # local id -> withheld OKAY acks (released later by the test script)
+    self.echo = {}            # local id -> payloads the device sends right after acknowledging the next host WRTE
 
   def push(self, cmd, a0, a1, data=''):
     hdr, payload = c15._frame(cmd, a0, a1, data)
@@ -103,6 +104,10 @@ class Dev(object):
         self.facts.append('X:second-WRTE-before-the-first-was-acknowledged:%d' % a0)
       self.unread_okay[a0] = self.unread_okay.get(a0, 0) + 1
       self.push('OKAY', a1, a0)
+      # a device that answers what the host wrote (a shell echoing a command): the reader of that stream is still
+      # reading when the acknowledgement of the write arrives
+      for payload in self.echo.pop(a0, []):
+        self.push('WRTE', a1, a0, payload)
 
   def close(self):
     pass
@@ -146,6 +151,8 @@ def _chooser(case):
     ex = sched.Explorer()
     ex.prefix = list(case['choices'])
     return ex.choose
+  if case.get('pct'):
+    return sched.pct_chooser(common.Rng('c14p/%s' % case['rseed']), case['pct'], case.get('horizon', 300))
   return sched.random_chooser(common.Rng('c14/%s' % case['rseed']), case.get('switch', 0.4))
 
 
@@ -173,6 +180,8 @@ def _body(case, res):
         dev.push('WRTE', dev.remote_of[lid], lid, payload)
       elif kind == 'Z':
         dev.push('CLSE', dev.remote_of[lid], lid)
+      elif kind == 'E':
+        dev.echo.setdefault(lid, []).append(payload)
     got = {i: [] for i in range(case['nstreams'])}
     errs = {}
     res['got'], res['errs'] = got, errs
@@ -278,7 +287,66 @@ def _abstract(case, s, res):
   return dacts, wtoks
 
 
+def _run_reopen(case):
+  """a stream is closed by the host while the device still has packets for it in flight, then another stream is opened:
+  the new stream must see its own data only, and the stale packets must not be acknowledged in its name"""
+  ap = _setup()
+  from openhtf.plugs.usb import adb_message as am
+  from openhtf.plugs.usb import usb_exceptions as ue
+  res = {}
+
+  def body(s):
+    dev = Dev(s)
+    conn = ap.AdbConnection(am.AdbTransportAdapter(dev), 4096, 'device:SER:banner')
+    facts = []
+    res['facts'] = facts
+    res['dev'] = dev
+    for _ in range(case.get('pre', 0)):         # earlier, cleanly finished streams
+      st = conn.open_stream('pre:', timeout_ms=5000)
+      st.close(timeout_ms=5000)
+    a = conn.open_stream('a:', timeout_ms=5000)
+    la, ra = a._transport.local_id, dev.remote_of[a._transport.local_id]
+    stale = case['stale']
+    if case['when'] == 'before-close':
+      for k in stale:
+        dev.push('WRTE' if k == 'W' else 'CLSE', ra, la, 'old' if k == 'W' else '')
+    a.close(timeout_ms=5000)
+    if case['when'] == 'after-close':
+      for k in stale:
+        dev.push('WRTE' if k == 'W' else 'CLSE', ra, la, 'old' if k == 'W' else '')
+    try:
+      b = conn.open_stream('b:', timeout_ms=5000)
+    except Exception as e:  # pylint: disable=broad-except
+      facts.append('X:open-after-close-raised:' + c15._errkind(e, ue))
+      return True
+    if b is None:
+      facts.append('X:new-stream-refused-because-of-stale-packets')
+      return True
+    lb, rb = b._transport.local_id, dev.remote_of[b._transport.local_id]
+    if case['when'] == 'after-open':
+      for k in stale:
+        dev.push('WRTE' if k == 'W' else 'CLSE', ra, la, 'old' if k == 'W' else '')
+    dev.push('WRTE', rb, lb, 'new')
+    try:
+      d = b.read(timeout_ms=5000)
+      if d != 'new':
+        facts.append('X:new-stream-read-foreign-data:' + _hex(d))
+    except Exception as e:  # pylint: disable=broad-except
+      facts.append('X:new-stream-read-raised:' + c15._errkind(e, ue))
+    acks_b = [1 for (cmd, a0, a1, data) in dev.sent if cmd == 'OKAY' and a0 == lb and a1 == rb]
+    if len(acks_b) != 1:
+      facts.append('X:acknowledgements-in-the-name-of-the-new-stream:%d' % len(acks_b))
+    return True
+  box, s = sched.run(sched.random_chooser(common.Rng('c14r/0'), 0.0), body, max_steps=60000)
+  facts = res.get('facts', [])
+  if s.deadlock or 'sched_error' in box:
+    facts.append('X:deadlock')
+  return {'broken': True, 'facts': facts, 'reopen': True}
+
+
 def run_real(case):
+  if case.get('kind') == 'reopen':
+    return _run_reopen(case)
   res = {}
   early = None
   if case.get('early'):
@@ -303,7 +371,8 @@ def run_real(case):
   dacts, wtoks = _abstract(case, s, res)
   per = []
   for i in range(case['nstreams']):
-    want = ''.join(p for (si, k, p) in case['dev'] if si == i and k == 'W')
+    want = ''.join(p for (si, k, p) in case['dev'] if si == i and k == 'W') + \
+        ''.join(p for (si, k, p) in case['dev'] if si == i and k == 'E')
     got = ''.join(res['got'][i])
     rdone = all(('%s%d' % (kind.lower(), ti)) not in res['errs'] for ti, (kind, si, arg) in enumerate(case['threads'])
                 if kind in 'RL' and si == i) and any(kind in 'RL' and si == i for (kind, si, arg) in case['threads'])
@@ -323,6 +392,8 @@ def run_real(case):
 
 
 def encode(case, o):
+  if o.get('reopen'):
+    return 'C14 1 4096 D W # H X %s' % ' '.join(o['facts'])
   if o.get('broken'):
     return 'C14 %d %d D W # H X %s' % (case['nstreams'], case.get('maxdata', 4096), ' '.join(o['facts']))
   obs = []
@@ -333,10 +404,14 @@ def encode(case, o):
 
 
 def classify(case, o):
+  if case.get('kind') == 'reopen':
+    return 'reopen/' + case['when']
   return '%ds/%dthr/%s' % (case['nstreams'], len(case['threads']), 'dfs' if case.get('choices') is not None else 'rnd')
 
 
 def nontrivial_key(case, o):
+  if o.get('reopen'):
+    return repr(sorted(case.items()))
   if o.get('broken'):
     return None
   return ' '.join(o['dacts']) + '|' + ' '.join(o['wtoks'])
@@ -355,6 +430,10 @@ def gen_cases(rng, tier):
   cases = []
   # one stream, reader + writer on it (the AsyncCommandHandle pattern): the wake-up protocol
   cfg = {'nstreams': 1, 'dev': [(0, 'W', 'ab'), (0, 'W', 'c')], 'threads': [('R', 0, 3), ('W', 0, 'xy')], 'maxdata': 4096,
+         'timeout_ms': 2000}
+  cases += _dfs(cfg, 2, 600 if quick else 6000)
+  # the device answers the write: the reader is still reading when the write's acknowledgement arrives
+  cfg = {'nstreams': 1, 'dev': [(0, 'W', 'a'), (0, 'E', 'bc')], 'threads': [('R', 0, 3), ('W', 0, 'xy')], 'maxdata': 4096,
          'timeout_ms': 2000}
   cases += _dfs(cfg, 2, 600 if quick else 6000)
   cfg = {'nstreams': 2, 'dev': [(0, 'W', 'a1'), (1, 'W', 'b1'), (0, 'W', 'a2'), (1, 'W', 'b2')],
@@ -376,18 +455,24 @@ def gen_cases(rng, tier):
       si = r.choice([x for x in range(ns) if pos[x] < len(scripts[x])])
       dev.append((si, 'W', scripts[si][pos[si]]))
       pos[si] += 1
+    echo_on = [si for si in range(ns) if r.random() < 0.3]
     if r.random() < 0.2 and ns > 1:
       dev.append((r.randrange(ns), 'Z', ''))
     maxdata = r.choice([3, 4, 4096])
     threads = []
     for si in range(ns):
       total = sum(len(p) for p in scripts[si])
+      wants_write = r.random() < 0.6
+      if si in echo_on and wants_write and not any(k == 'Z' for (_, k, _) in dev):
+        e = chr(ord('q') + si) * r.choice([1, 2])
+        dev.append((si, 'E', e))
+        total += len(e)
       if total:
         if r.random() < 0.3:
           threads.append(('L', si, (total, r.choice([1, 2, 3]))))
         else:
           threads.append(('R', si, total))
-      if r.random() < 0.6:
+      if wants_write:
         n = r.choice([1, maxdata - 1, maxdata, maxdata + 1, 2 * maxdata, 2 * maxdata + 1]) if maxdata < 100 else r.choice([1, 5])
         threads.append(('W', si, ''.join(chr(ord('A') + (si * 5 + j) % 26) for j in range(max(1, n)))))
     if not threads:
@@ -403,6 +488,19 @@ def gen_cases(rng, tier):
     cases.append({'nstreams': 2, 'dev': [(0, 'W', 'a1'), (1, 'W', 'b1'), (1, 'W', 'b2'), (0, 'W', 'a2'), (1, 'W', 'b3')],
                   'threads': [('R', 0, 4), ('R', 1, 6)], 'maxdata': 4096, 'timeout_ms': 600000,
                   'early': r.choice([0.3, 0.6, 0.9]), 'rseed': r.getrandbits(32), 'switch': r.choice([0.3, 0.6, 0.9])})
+  for when in ('before-close', 'after-close', 'after-open'):
+    for stale in (['W'], ['Z'], ['W', 'W'], ['W', 'Z']):
+      for pre in (0, 1, 3):
+        cases.append({'kind': 'reopen', 'when': when, 'stale': stale, 'pre': pre})
+  # reader and writer on one stream, the device answers the write, polls fire early: the reader is inside its blocking
+  # transport read when the write goes out and may be the one that reads the write's acknowledgement
+  for i in range(800 if quick else 8000):
+    r = rng.derive('echo%d' % i)
+    e = r.choice(['bc', 'b'])
+    cases.append({'nstreams': 1, 'dev': [(0, 'W', 'a'), (0, 'E', e)],
+                  'threads': [('R', 0, 1 + len(e)), ('W', 0, r.choice(['xy', 'x']))][::r.choice([1, -1])],
+                  'maxdata': 4096, 'timeout_ms': 600000, 'early': r.choice([0.3, 0.6, 0.9]), 'rseed': r.getrandbits(32),
+                  'switch': r.choice([0.1, 0.3, 0.6]), 'pct': r.choice([0, 2, 3]), 'horizon': r.choice([150, 300])})
   return cases
 
 
